@@ -3,6 +3,8 @@ CONSTANT MaxLen = 4
 CONSTANT Deviations = {"AssertionFiresOnce"}
 CONSTANT EmitCase = FALSE
 CONSTANT EmitMod = 1
+CONSTANT Alphabet = "A"
+CONSTANT MCFuelC = 60
 CONSTANT FUEL <- MCFuel
 INVARIANT VerdictReflectsState
 INVARIANT TypeInv
